@@ -670,7 +670,7 @@ Lemma front_end_transparent : forall fixed sc,
   ~ cannot_build (sc_args sc) (sc_build sc) -> sc_start sc = true ->
   mage_status fixed sc = compiled_exit fixed (sc_prog sc) /\ f_child (mage_run fixed sc) = true.
 Proof.
-  intros fixed sc Hh Hm Hs Hb Hst. unfold mage_status, mage_run, ParseAndRun.
+  intros fixed sc Hh Hm Hs Hb Hst. unfold mage_status, mage_run, ParseAndRun, ParseAndRun_gen.
   destruct (Parse_spec (sc_args sc)) as [P1 [P2 P3]].
   destruct (Parse (sc_args sc)) as [cmd e] eqn:EP. simpl in *.
   destruct e; [|exfalso; apply Hh; apply P1; reflexivity|exfalso; apply Hm; apply P2; reflexivity].
@@ -699,7 +699,7 @@ Lemma mage_zero_iff_ok : forall sc, wf_prog (sc_prog sc) -> (mage_status true sc
 Proof.
   intros sc Hwf. unfold all_ok.
   destruct (Parse_spec (sc_args sc)) as [P1 [P2 P3]].
-  unfold mage_status, mage_run, ParseAndRun.
+  unfold mage_status, mage_run, ParseAndRun, ParseAndRun_gen.
   destruct (Parse (sc_args sc)) as [cmd e] eqn:EP. simpl in *.
   destruct e.
   - (* no error *)
@@ -742,7 +742,7 @@ Qed.
 Lemma front_misuse_two : forall fixed sc, misuse (sc_args sc) -> mage_status fixed sc = 2 /\ f_child (mage_run fixed sc) = false.
 Proof.
   intros fixed sc H. destruct (Parse_spec (sc_args sc)) as [_ [P2 _]]. apply P2 in H.
-  unfold mage_status, mage_run, ParseAndRun. destruct (Parse (sc_args sc)) as [cmd e]. simpl in H. subst e.
+  unfold mage_status, mage_run, ParseAndRun, ParseAndRun_gen. destruct (Parse (sc_args sc)) as [cmd e]. simpl in H. subst e.
   destruct cmd; split; reflexivity.
 Qed.
 
@@ -752,7 +752,7 @@ Lemma cannot_build_one : forall fixed sc, ~ shows_help (sc_args sc) -> ~ misuse 
   mage_status fixed sc = 1 /\ f_child (mage_run fixed sc) = false /\ f_msg (mage_run fixed sc) = true.
 Proof.
   intros fixed sc Hh Hm Hs Hb. destruct (Parse_spec (sc_args sc)) as [P1 [P2 P3]].
-  unfold mage_status, mage_run, ParseAndRun. destruct (Parse (sc_args sc)) as [cmd e]. simpl in *.
+  unfold mage_status, mage_run, ParseAndRun, ParseAndRun_gen. destruct (Parse (sc_args sc)) as [cmd e]. simpl in *.
   destruct e; [|exfalso; apply Hh; apply P1; reflexivity|exfalso; apply Hm; apply P2; reflexivity].
   rewrite (P3 eq_refl). destruct Hs as [Hs|Hs]; rewrite Hs; rewrite (Invoke_cannot_build _ _ _ Hb); repeat split; reflexivity.
 Qed.
@@ -763,7 +763,7 @@ Lemma not_started_one : forall fixed sc, ~ shows_help (sc_args sc) -> ~ misuse (
   mage_status fixed sc = 1 /\ f_msg (mage_run fixed sc) = true.
 Proof.
   intros fixed sc Hh Hm Hs Hb Hst. destruct (Parse_spec (sc_args sc)) as [P1 [P2 P3]].
-  unfold mage_status, mage_run, ParseAndRun. destruct (Parse (sc_args sc)) as [cmd e]. simpl in *.
+  unfold mage_status, mage_run, ParseAndRun, ParseAndRun_gen. destruct (Parse (sc_args sc)) as [cmd e]. simpl in *.
   destruct e; [|exfalso; apply Hh; apply P1; reflexivity|exfalso; apply Hm; apply P2; reflexivity].
   rewrite (P3 eq_refl), Hs, (Invoke_builds _ _ _ Hb).
   assert (Hc : compiling (sc_args sc) = false).
@@ -1019,7 +1019,7 @@ Proof.
   { split; [intros [E|[E _]]; congruence|left; exact H]. }
   destruct (front_misuse_two fixed sc M) as [E1 E2]. split; [exact E1|]. split; [exact E2|].
   destruct (Parse_spec (sc_args sc)) as [_ [P2 _]]. apply P2 in M.
-  unfold mage_run, ParseAndRun. destruct (Parse (sc_args sc)) as [cmd e]. simpl in M. subst e. destruct cmd; reflexivity.
+  unfold mage_run, ParseAndRun, ParseAndRun_gen. destruct (Parse (sc_args sc)) as [cmd e]. simpl in M. subst e. destruct cmd; reflexivity.
 Qed.
 
 (* a failed sh command that has no exit code of its own - killed by a signal, could not be started, or ran (exit 0)
@@ -1029,4 +1029,23 @@ Lemma sh_without_exit_code : forall b, b = BSh CSignaled \/ b = BSh CNotStarted 
   run_body b = Returned VPlain /\ status b = 1 /\ wf_body b /\ ~ completes b /\ plain_failure b.
 Proof.
   intros b [H|[H|H]]; subst; simpl; unfold plain_failure; repeat split; auto; tauto.
+Qed.
+
+(* a -clean that fails (since 158c196): 1 and a message on stderr; before: 1 and nothing on stderr *)
+Lemma clean_failure_reported : forall fixed sc, ~ shows_help (sc_args sc) -> ~ misuse (sc_args sc) ->
+  selected (sc_args sc) = CmdClean -> sc_clean_err sc = true ->
+  mage_status fixed sc = 1 /\ f_msg (mage_run fixed sc) = true /\ f_child (mage_run fixed sc) = false.
+Proof.
+  intros fixed sc Hh Hm Hs He. destruct (Parse_spec (sc_args sc)) as [P1 [P2 P3]].
+  unfold mage_status, mage_run, ParseAndRun, ParseAndRun_gen. destruct (Parse (sc_args sc)) as [cmd e]. simpl in *.
+  destruct e; [|exfalso; apply Hh; apply P1; reflexivity|exfalso; apply Hm; apply P2; reflexivity].
+  rewrite (P3 eq_refl), Hs, He. repeat split; reflexivity.
+Qed.
+
+Lemma clean_failure_silent_before_repair : exists a bd ch,
+  f_code (ParseAndRun_gen false a false true bd ch) = 1 /\ f_msg (ParseAndRun_gen false a false true bd ch) = false.
+Proof.
+  exists {| fa_parse := FlagsOk; fa_help := false; fa_init := false; fa_compile := false; fa_version := false; fa_clean := true;
+            fa_goosarch := false; fa_force := false; fa_hashfast := false; fa_nargs := 0 |}, good_build, CNotStarted.
+  split; reflexivity.
 Qed.
